@@ -173,7 +173,8 @@ class Parser(object):
     def _is_type_sizer_compatible(self, typename):
         if typename in {type_ + width for type_ in 'ui' for width in ['8', '16', '32', '64']}:
             return True
-        elif typename in self.typedecls and isinstance(self.typedecls[typename], model.Typedef):
+        elif typename in self.typedecls and isinstance(self.typedecls[typename], model.Typedef) and \
+                self.typedecls[typename].type_name != typename:
             return self._is_type_sizer_compatible(self.typedecls[typename].type_name)
         else:
             return False
